@@ -133,7 +133,7 @@ def get_app(alg, qop, users, realm, requser, secret="sekret", timeout=300, toy=F
     return app
 
 
-def call(app, method, path, query, hdr, agent, now_ticks=None, toy=False, server="srv"):
+def call(app, method, path, query, hdr, agent, now_ticks=None, toy=False, server="srv", extra=None):
     import poorwsgi.session as S
     env = {"REQUEST_METHOD": method, "PATH_INFO": path.encode("utf-8").decode("latin-1"), "QUERY_STRING": query,
            "SERVER_NAME": server, "SERVER_PORT": "80", "SERVER_PROTOCOL": "HTTP/1.1", "wsgi.url_scheme": "http",
@@ -142,6 +142,7 @@ def call(app, method, path, query, hdr, agent, now_ticks=None, toy=False, server
         env["HTTP_USER_AGENT"] = agent
     if hdr is not None:
         env["HTTP_AUTHORIZATION"] = hdr
+    env.update(extra or {})
     del app.ran[:]
     old = (S.sha256, S.time)
     if toy:
@@ -365,6 +366,19 @@ def oracle(case):
     t0 = rng.randrange(10 ** 9, 2 * 10 ** 9) + rng.random()
     app = get_app(alg, qop, users, realm, requser, secret, timeout)
     nonce = issue_nonce(secret, agent, timeout, int(t0 * 1e6))
+    extra = None
+    if rng.random() < 0.2:
+        # the deployment sets the secret key per request (poor_SecretKey in the environ): the nonce the server issues
+        # is then the one of its own challenge to this very client, whatever key it is made with
+        extra = {"poor_SecretKey": "env-" + secret}
+        try:
+            _, _, chal, _ = call(app, method, path, query, None, agent, int(t0 * 1e6), extra=extra)
+        except Exception as err:
+            return [Violation("c11:escape", case, "challenge with poor_SecretKey: the application raised %r" % (err,))]
+        m = re.search(r'nonce="([^"]+)"', chal)
+        if not m:
+            return [Violation("c11:challenge", case, "no nonce in the challenge %r" % (chal[:120],))]
+        nonce = m.group(1)
     scenario = rng.choice(["correct", "correct", "mutated", "mutated", "mutated", "nonce-age", "broken", "absent", "wrong-method",
                            "other-user", "suffix-uri", "foreign-nonce", "wrong-password", "unknown-user"])
     age = 0.0
@@ -419,6 +433,8 @@ def oracle(case):
         expect_run, note = False, "credentials computed for /other" + uri
     elif scenario == "foreign-nonce":
         fn = issue_nonce(rng.choice(["foreign", secret]), "another agent", timeout, int(t0 * 1e6))
+        if extra and rng.random() < 0.6:
+            fn = issue_nonce(secret, agent, timeout, int(t0 * 1e6))      # made with the key this request does not use
         f = client_fields(hfun, alg, qop, user, realm, password, fn, method, uri, opaque_of())
         expect_run, expect_stale = False, None
     elif scenario == "unknown-user":
@@ -443,11 +459,12 @@ def oracle(case):
         hdr = None
     try:
         status, ran, www, body = call(app, method, path, query, wire(hdr) if hdr is not None else None, agent,
-                                      int((t0 + age) * 1e6))
+                                      int((t0 + age) * 1e6), extra=extra)
     except Exception as err:
         return [Violation("c11:escape", case, "%s: the application raised %r" % (scenario, err))]
     bad, key = None, scenario
-    desc = "%s/%s qop=%r %s %s?%s user=%r required=%r [%s %s]" % (alg, realm, qop, method, path, query, user, requser, scenario, note)
+    desc = "%s/%s qop=%r %s %s?%s user=%r required=%r [%s %s]%s" % (alg, realm, qop, method, path, query, user, requser, scenario, note,
+                                                                    " poor_SecretKey set on the request" if extra else "")
     if status == 500:
         bad = "500 Internal Server Error"
     elif expect_run is True:
